@@ -65,6 +65,15 @@ def gen_type(rng, depth, pv=4, allow_vector=True, allow_udt=True, counter=[0], s
             # same name, same field names, same OUTER field kinds, different inner parameters (list<int> vs list<text>)
             return ('udt', 'ks1', rng.choice(['addr', 'udt_a']),
                     (('a', ('list', (rng.choice(scalars),))), ('b', ('map', (rng.choice(scalars),), (rng.choice(scalars),)))))
+        if r < 0.35:
+            # the same OUTER type (name, field names) around a NESTED user type that is re-defined under its name (ALTER TYPE
+            # address ADD zip ...): the nested type's CQL name stays 'address' whatever its fields are
+            inner = rng.choice([(('street', ('text',)),),
+                                (('street', ('text',)), ('zip', ('int',))),
+                                (('street', ('text',)), ('zip', ('text',))),
+                                (('street', ('text',)), ('zip', ('int',)), ('tags', ('list', ('text',)))),
+                                (('zip', ('bigint',)), ('street', ('text',)))])
+            return ('udt', 'ks1', 'person', (('name', ('text',)), ('home', ('udt', 'ks1', 'address', inner))))
         uname = 'udt%d' % counter[0] if r < 0.8 else rng.choice(['addr', 'udt_a', 'udt_b'])
         return ('udt', 'ks1', uname, tuple((n, sub()) for n in names))
     if k == 'vector':
